@@ -480,6 +480,12 @@ class Engine:
             if t.exc is not None:
                 return V("C08.6", "exception in %s: %r" % (t.role, t.exc),
                          "C08.6:exception")
+        src3 = res["src"]
+        if src3.reads_after_eof or src3.eof_returned != 1:
+            return V("C08.3", "pipeline: end of stream returned %d time(s), "
+                     "%d read(s) after it" % (src3.eof_returned,
+                                              src3.reads_after_eof),
+                     "C08.3:pipe_eos_once")
         # reads issued when detection i was put into the observer's inbox
         nreads = 0
         at = {}
